@@ -22,6 +22,13 @@ Calibration
 * pad with value keywords (constant_values / end_values / stat_length) and the statistic modes use numeric
   dtypes only (NumPy itself converts 2.5 to a datetime there).
 * take with a 2-d index array is array indexing (C20), not in this statement's list -> not generated.
+
+Sibling facet (vf/mon/siblings.py): every case is also built a second time with ONE result-relevant parameter changed
+(another indexer / axes / target shape / merge_chunks / pad width, mode or constant / k / n / shift / repeats / reps).
+The two lazily built collections must not share output keys unless their stand-alone values are equal (label
+``<op>:<param>-not-in-name:siblings-share-keys``); for a seeded ~15 % of the cases both are also computed in one graph and
+compared with their stand-alone values (``<op>:<param>:differs-when-computed-with-sibling``).  Counters siblings_built /
+siblings_computed_together / siblings_with_different_values have floors.
 """
 from __future__ import annotations
 
